@@ -29,14 +29,18 @@ use crate::ExecutionControlFlow;
 
 type Sh = Shell<extensions::DefaultShellExtensions>;
 
-pub struct POracle { pub has_err_trap: bool, pub code: u8, pub stage_flag: Option<bool>, pub err_traps: u8, pub status_at_trap: u8, pub spawned: u8, pub waited: u8, pub trap_clobbers: u8 }
+pub struct POracle { pub flow: u8, pub handler_exits: Option<u8>, pub has_err_trap: bool, pub code: u8, pub stage_flag: Option<bool>, pub err_traps: u8, pub status_at_trap: u8, pub spawned: u8, pub waited: u8, pub trap_clobbers: u8 }
 impl POracle {
     fn spawn(&mut self, p: &ExecutionParameters) -> Result<u8, error::Error> { self.spawned += 1; self.stage_flag = Some(p.suppress_errexit); Ok(0) }
     fn wait(&mut self, _r: u8, shell: &mut Sh) -> Result<ExecutionResult, error::Error> {
-        self.waited += 1; shell.set_last_exit_status(self.code); Ok(ExecutionResult::new(self.code))
+        self.waited += 1; shell.set_last_exit_status(self.code); let mut r = ExecutionResult::new(self.code);
+        // what the last stage asked for: 0 nothing, 1 exit, 2 return, 3 break, 4 continue
+        r.next_control_flow = match self.flow { 1 => ExecutionControlFlow::ExitShell, 2 => ExecutionControlFlow::ReturnFromFunctionOrScript, 3 => ExecutionControlFlow::BreakLoop { levels: 0 }, 4 => ExecutionControlFlow::ContinueLoop { levels: 0 }, _ => ExecutionControlFlow::Normal };
+        Ok(r)
     }
     fn err_trap(&mut self, shell: &mut Sh) -> Result<ExecutionResult, error::Error> {
-        self.err_traps += 1; self.status_at_trap = shell.last_exit_status(); Ok(ExecutionResult::success())
+        self.err_traps += 1; self.status_at_trap = shell.last_exit_status();
+        match self.handler_exits { Some(c) => { let mut r = ExecutionResult::new(c); r.next_control_flow = ExecutionControlFlow::ExitShell; Ok(r) } None => Ok(ExecutionResult::success()) }
     }
 }
 
@@ -59,7 +63,7 @@ fn vk_c03_pipeline_errexit() {
     params.suppress_errexit = parent_flag;
     let bang: bool = kani::any();
     let p = ast::Pipeline { timed: None, bang, seq: Vec::new() };
-    let mut o = POracle { has_err_trap, code: kani::any(), stage_flag: None, err_traps: 0, status_at_trap: 0, spawned: 0, waited: 0, trap_clobbers: 0 };
+    let mut o = POracle { flow: 0, handler_exits: None, has_err_trap, code: kani::any(), stage_flag: None, err_traps: 0, status_at_trap: 0, spawned: 0, waited: 0, trap_clobbers: 0 };
     let r = vk_ok(t_pipeline(&p, &mut shell, &params, &mut o));
     let status = if bang { if o.code == 0 { 1 } else { 0 } } else { o.code };
     let should_exit = errexit && !bang && !parent_flag && status != 0;
@@ -143,3 +147,56 @@ fn vk_c03_pipefail_3() {
     assert!(ps.len() == 3 && ps[0] == c[0] && ps[1] == c[1] && ps[2] == c[2], "C11.pipestatus.all_stages_in_order");
     std::mem::forget(p); std::mem::forget(shell); std::mem::forget(params);
 }
+
+fn exit_return_step(modulo_known: bool) {
+    let mut shell: Sh = Shell::default();
+    let errexit: bool = kani::any();
+    shell.options_mut().exit_on_nonzero_command_exit = errexit;
+    let has_err_trap: bool = kani::any();
+    let mut params = ExecutionParameters::default();
+    let parent_flag: bool = kani::any();
+    params.suppress_errexit = parent_flag;
+    let bang: bool = kani::any();
+    let p = ast::Pipeline { timed: None, bang, seq: Vec::new() };
+    let flow: u8 = any_below(5);
+    let handler_exits: Option<u8> = if kani::any() { Some(kani::any()) } else { None };
+    let mut o = POracle { flow, handler_exits, has_err_trap, code: kani::any(), stage_flag: None, err_traps: 0, status_at_trap: 0, spawned: 0, waited: 0, trap_clobbers: 0 };
+    let leaving = flow == 1 || flow == 2;
+    // KNOWN FINDING D28 region: an `exit n` / `return n` request with n != 0 reaching a pipeline where the ERR trap would fire for a failure
+    if modulo_known { kani::assume(!(leaving && has_err_trap && !bang && !parent_flag && o.code != 0)); }
+    let r = vk_ok(t_pipeline(&p, &mut shell, &params, &mut o));
+    let status = if bang && !leaving { if o.code == 0 { 1 } else { 0 } } else { o.code };
+    let trap_due = has_err_trap && !bang && !parent_flag && status != 0 && !leaving;
+    kani::cover!(bang && flow == 1 && o.code == 3, "negated_exit_3");
+    kani::cover!(trap_due && handler_exits == Some(5), "err_handler_calls_exit_5");
+    kani::cover!(flow == 3 && bang, "negated_break");
+    kani::cover!(modulo_known || (leaving && has_err_trap && !bang && !parent_flag && o.code != 0), "exit_request_where_the_err_trap_is_armed");
+    assert!(o.err_traps == trap_due as u8, "C16.pipeline.err_trap_not_fired_by_exit_or_return_requests");
+    if trap_due && handler_exits.is_some() {
+        assert!(matches!(r.next_control_flow, ExecutionControlFlow::ExitShell) && Some(u8::from(r.exit_code)) == handler_exits, "C16.pipeline.exit_in_the_err_handler_ends_the_shell_with_its_status");
+    } else {
+        assert!(u8::from(r.exit_code) == status, "C02.pipeline.exit_and_return_status_not_inverted");
+        assert!(shell.last_exit_status() == status, "C02.pipeline.dollar_question");
+        match flow {
+            1 => assert!(matches!(r.next_control_flow, ExecutionControlFlow::ExitShell), "C16.pipeline.exit_request_passes_through"),
+            2 => assert!(matches!(r.next_control_flow, ExecutionControlFlow::ReturnFromFunctionOrScript), "C02.pipeline.return_request_passes_through"),
+            3 | 4 => { let exits = errexit && !bang && !parent_flag && status != 0; assert!(exits || r.is_break() || r.is_continue(), "C02.pipeline.loop_control_passes_through"); }
+            _ => {}
+        }
+    }
+    std::mem::forget(p); std::mem::forget(shell); std::mem::forget(params);
+}
+
+//@proof {'props': ['C16'], 'tier': 'quick', 'timeout': 900, 'uses': ['pipeline'], 'known': 'D28', 'bounds': 'the pipeline ends in `exit n` / `return n` / `break` / `continue` or normally (symbolic), status any u8; `!`, errexit, inherited exemption, ERR trap registered, ERR handler calling `exit m` - all symbolic', 'desc': 'FULL contract of exit / return requests passing through a pipeline, expected to fail on the recorded finding D28 (`exit 3` and `return 3` fire the ERR trap as if they were failing commands)'}
+#[kani::proof]
+#[kani::unwind(4)]
+#[kani::stub(std::hash::RandomState::new, crate::vk_prelude::stub_random_state_new)]
+#[kani::stub(std::time::SystemTime::now, crate::vk_prelude::stub_now)]
+fn vk_c16_pipeline_exit_return_full() { exit_return_step(false); }
+
+//@proof {'props': ['C16', 'C02', 'C03'], 'tier': 'quick', 'timeout': 900, 'uses': ['pipeline'], 'bounds': 'as above; the D28 region (a non-zero exit / return request where the ERR trap is armed) is assumed away', 'desc': 'exit and return requests pass through a pipeline untouched: `! exit 3` ends the shell with 3 and `! return 3` returns 3 (no inversion); break / continue keep their flow; an ERR handler that calls `exit m` ends the shell with m; otherwise the handler changes nothing'}
+#[kani::proof]
+#[kani::unwind(4)]
+#[kani::stub(std::hash::RandomState::new, crate::vk_prelude::stub_random_state_new)]
+#[kani::stub(std::time::SystemTime::now, crate::vk_prelude::stub_now)]
+fn vk_c16_pipeline_exit_return_modulo_known() { exit_return_step(true); }
